@@ -46,7 +46,11 @@ type chainErr struct{}
 
 func (chainErr) Error() string { return "chain error value" }
 
-type chainStruct struct{ A, B int }
+// an UNHASHABLE value (it holds a slice): recovering code must not use a panic value as a map key or compare it
+type chainStruct struct {
+	A, B  int
+	Items []string
+}
 
 type chainUnmapped struct{ _ int }
 
@@ -150,7 +154,7 @@ func (h *chainHandler) interpret(i int, cur **chainRun, c flamego.Context) {
 				var m map[string]int
 				m["x"] = 1 // runtime error: assignment to entry in nil map
 			case 'T':
-				panic(chainStruct{1, 2})
+				panic(chainStruct{1, 2, []string{"x"}})
 			case 'A':
 				panic(http.ErrAbortHandler)
 			}
